@@ -293,7 +293,12 @@ def path_summary(prog, f):
             if a is None:
                 conds.append("%s %s %s" % (canon(e), c[1], sorted(c[2])))
             elif a[0] == "truth":
-                conds.append("%s is %s" % (canon(strip(a[1])), a[2]))
+                tt, tv = canon(strip(a[1])), a[2]
+                # `x != y` through the trait method is `!(x == y)`
+                m = re.match(r"^(.*PartialEq[^(]*)::ne(?:::<[^()]*>)?\((.*)$", tt)
+                if m and strip(a[1])[0] == "call":
+                    tt, tv = "%s::eq(%s" % (m.group(1), m.group(2)), not tv
+                conds.append("%s is %s" % (tt, tv))
             else:
                 x, y = canon(strip(a[1])), canon(strip(a[2]))
                 op = a[0]
@@ -310,7 +315,10 @@ def path_summary(prog, f):
             continue
         sites.append((sorted(set(conds)), rv))
     # merge sites with equal results whose condition sets differ in one discriminant only is left to the comparison (sets of pairs)
-    out = sorted({"%s <= %s" % (ren(r), ren(" & ".join(cs))) for cs, r in sites})
+    # `==` / `!=` go through `PartialEq`, as an impl method (`<T as PartialEq>::eq`), the trait's provided `ne`, or the array impl: one name
+    def peq(txt):
+        return re.sub(r"(?:<[^()]*? as core::cmp::PartialEq(?:<[^()]*?>)?>|core::cmp::PartialEq|core::array::equality::<impl core::cmp::PartialEq<[^()]*?> for [^()]*?>|core::cmp::impls::<impl core::cmp::PartialEq<[^()]*?> for [^()]*?>)::(eq|ne)(?:::<[^()]*>)?\(", r"PartialEq::\1(", txt)
+    out = sorted({"%s <= %s" % (ren(peq(r)), ren(" & ".join(sorted(peq(c) for c in cs)))) for cs, r in sites})
     return out
 
 
